@@ -54,12 +54,16 @@ def _r1_r2(model, res):
         ('INDEX', 'row 0, column', lambda: [Sym('list', 'ARR'), Const(0), Aff(1, 0, 'int', 'c')]),
         ('INDEX', 'row, column 1', lambda: [Sym('list', 'ARR'), Aff(1, 0, 'int', 'r'), Const(1)]),
         ('CHOOSE', 'three values', lambda: [Aff(1, 0, 'int', 'i'), Sym('str', 'v1'), Sym('str', 'v2'), Sym('str', 'v3')]),
+        # positions that arrive as text (a cell or variable holding "-1"): the integer the text spells is the symbolic variable
+        ('INDEX', 'row given as text', lambda: [Sym('list', 'ARR'), Sym('str', 'r')]),
+        ('INDEX', 'column given as text', lambda: [Sym('list', 'ARR'), Const(None), Sym('str', 'c')]),
+        ('INDEX', 'row and column given as text', lambda: [Sym('list', 'ARR'), Sym('str', 'r'), Sym('str', 'c')]),
     ]
     n_ev = 0
     for name, label, mk in cases:
         m, f = model.registered(name)
         try:
-            outs = _runs(model, name, mk)
+            outs = _runs(model, name, mk, flags={'int_parse_symbol': True} if 'text' in label else None)
         except Unmodelled as e:
             res.ob('R1', name, label, True, 'undecided: %s' % e)
             res.notes.append('C18.R1 %s %s: %s' % (name, label, e))
@@ -208,6 +212,30 @@ def _r3(model, res):
                 res.violation('R3', 'function:CHOOSE:whole-values', m2.where(f2),
                               'CHOOSE(%d, {a0,a1}, v2, {b00;b10}) must give %s (each value is chosen whole); got %r' % (i, want, o.value),
                               case={'index': i}, func=f2.name)
+    # a fractional index: an error, or the truncated position - never the rounded one (i = 0.6 is < 1 and must not select v1)
+    try:
+        outs = _runs(model, 'CHOOSE', lambda: [Sym('float', 'i'), Sym('str', 'v1'), Sym('str', 'v2'), Sym('str', 'v3')])
+    except Unmodelled as e:
+        outs = []
+        res.ob('R3', 'CHOOSE', {'index': 'fractional'}, True, 'undecided: %s' % e)
+
+    def ops_of(v, acc):
+        if isinstance(v, Atom):
+            acc.append(v.op)
+            for a in v.args:
+                ops_of(a, acc)
+        return acc
+    for o in outs:
+        if o.imprecise or o.kind != 'return' or o.value.tag == 'err':
+            continue
+        ops = ops_of(o.value, [])
+        ok = 'round' not in ops
+        res.ob('R3', 'CHOOSE', {'index': 'fractional', 'result': repr(o.value)[:80]}, ok)
+        if not ok:
+            res.violation('R3', 'function:CHOOSE:rounded-index', m2.where(f2),
+                          'CHOOSE with a fractional index selects a value through round() (%r): an index below 1 such as 0.6 selects v1 and 1.75 '
+                          'selects v2, although only 1 <= i <= n addresses vi (a fraction is an error, or at most truncated)' % (o.value,),
+                          func=f2.name)
     for i in (-1, 0, 1, 2, 3, 4):
         outs = _runs(model, 'CHOOSE', lambda i=i: [Const(i), Sym('str', 'v1'), Sym('str', 'v2'), Sym('str', 'v3')])
         for o in outs:
@@ -280,6 +308,16 @@ def _r4(model, res, E):
             res.violation('R4', 'function:MATCH:text', m.where(f),
                           'MATCH(text, array, 0): %s' % '; '.join(problems[:3]), func=f.name)
     res.soft_floor('MATCH text traces', n, 3)
+    if n == 0 and outs:
+        # the text branch is not followed precisely (e.g. a pattern assembled character by character): fall back on the structural
+        # judgement shared with C11.R3 - a regular expression applied with match()/search() and no end anchor matches prefixes
+        from .c11 import _regex_wildcards
+        verdict, why = _regex_wildcards(model, m, f)
+        res.ob('R4', 'MATCH', 'wildcard lookup matches the whole item', verdict is not False, why)
+        if verdict is False:
+            res.violation('R4', 'function:MATCH:text', m.where(f),
+                          'MATCH(text, array, 0): the wildcard comparison is a regular expression %s: an earlier item that merely starts with '
+                          'the lookup text is returned (INDEX(array, MATCH(x, array, 0)) is then not x)' % why, func=f.name)
     # numbers
     outs = _runs(model, 'MATCH', lambda: [Sym('int', 'X'), ListV([Sym('int', 'A0'), Sym('int', 'A1')]), Const(0)])
     for o in outs:
